@@ -134,6 +134,8 @@ pub enum Obs {
 		snapshot_step: Option<u64> },
 	Unhandled { step: u64, node: usize, what: String },
 	Probe(Probe),
+	/// a chain notification is about to be given to the ChainMonitor of `node` (all taps before it are already in the stream)
+	MonitorChainCall { step: u64, node: usize, height: u32, best_block: bool },
 }
 
 #[derive(Clone, Debug)]
@@ -645,11 +647,17 @@ impl World {
 	}
 	pub fn connect_block_to_node(&mut self, n: usize, b: &Block) {
 		let txdata: Vec<(usize, &Transaction)> = b.txs.iter().enumerate().map(|(i, t)| (i + 1, t)).collect();
-		let node = &self.nodes[n];
-		node.mon.transactions_confirmed(&b.header, &txdata, b.height);
-		node.mgr.transactions_confirmed(&b.header, &txdata, b.height);
-		node.mon.best_block_updated(&b.header, b.height);
-		node.mgr.best_block_updated(&b.header, b.height);
+		self.drain_taps();
+		self.obs.push_back(Obs::MonitorChainCall { step: self.step, node: n, height: b.height, best_block: false });
+		self.nodes[n].mon.transactions_confirmed(&b.header, &txdata, b.height);
+		self.drain_taps();
+		self.nodes[n].mgr.transactions_confirmed(&b.header, &txdata, b.height);
+		self.drain_taps();
+		self.obs.push_back(Obs::MonitorChainCall { step: self.step, node: n, height: b.height, best_block: true });
+		self.nodes[n].mon.best_block_updated(&b.header, b.height);
+		self.drain_taps();
+		self.nodes[n].mgr.best_block_updated(&b.header, b.height);
+		self.drain_taps();
 	}
 	pub fn mine(&mut self, blocks: u32) {
 		for _ in 0..blocks {
@@ -659,6 +667,7 @@ impl World {
 			if self.trace {
 				eprintln!("step {} MINE height {} with {} txs", self.step, b.height, b.txs.len());
 			}
+			self.drain_taps();
 			self.obs.push_back(Obs::BlockConnected { step: self.step, height: b.height, txids: b.txs.iter().map(|t| t.compute_txid()).collect() });
 			for n in 0..self.nodes.len() {
 				self.connect_block_to_node(n, &b);
